@@ -22,7 +22,7 @@ TECHNIQUE = 'inverse-physical-law oracle over random parameter sets, per-branch 
 RULE = ('parameter sets over physical ranges x 25 points each; non-trivial = set exercising a non-default branch (lead != 0, T < 0, initial '
         'voltage != 0, gain != 1, voltage excitation); distinct = rounded parameter tuple')
 ASSUMPTIONS = ['tolerance 1e-6 relative with a 1e-9 absolute floor near zero']
-REQUIRED = ['purity_calls', 'rtd_points', 'rtd_branch_point_sets', 'rtd_quartic_points', 'thermistor_points', 'strain_points', 'poly_points', 'table_points', 'through_channel',
+REQUIRED = ['rtd_cross_object_points', 'purity_calls', 'rtd_points', 'rtd_branch_point_sets', 'rtd_quartic_points', 'thermistor_points', 'strain_points', 'poly_points', 'table_points', 'through_channel',
             'branch:rtd:2-wire', 'branch:rtd:3-wire', 'branch:rtd:4-wire', 'branch:thermistor:current', 'branch:thermistor:voltage'] + \
            ['branch:strain:%d' % c for c in (10183, 10184, 10185, 10188, 10189, 10271, 10272)]
 N = {'quick': 9600, 'thorough': 3000000}
@@ -47,6 +47,12 @@ def pure_call(ctx, sc, volts, label):
     first = np.array(sc.scale(x), dtype='f8')
     changed = x.tobytes() != keep
     second = np.array(sc.scale(x), dtype='f8')
+    # results of earlier calls must not be overwritten by later calls of the same shape
+    r1 = sc.scale(x)
+    keep1 = np.array(r1, dtype='f8').tobytes()
+    sc.scale(x[::-1].copy())
+    if np.array(r1, dtype='f8').tobytes() != keep1:
+        ctx.violation('%s/earlier-result-overwritten-by-later-call' % label, {'scaling': type(sc).__name__})
     ctx.count('purity_calls')
     if changed or x.tobytes() != keep:
         ctx.violation('%s/scale-modifies-its-input' % label, {'scaling': type(sc).__name__})
@@ -99,7 +105,22 @@ def rtd(case, ctx, rng):
     if lead or (temps < 0).any():
         ctx.distinct(('rtd', round(r0, 3), round(a, 9), config, round(lead, 3)))
     ctx.sample({'case': case, 'params': params, 'temps': temps[:4].tolist()}, limit=1)
+    # another RTD with different coefficients fed with exactly the same voltages: its answers must satisfy ITS forward law
+    a2, b2, c2 = a * 1.004, b * 0.99, c * 1.05
+    other = S.RtdScaling(current, r0, a2, b2, c2, lead, config, SG.RAW)
     sc = S.RtdScaling(current, r0, a, b, c, lead, config, SG.RAW)
+    try:
+        sc.scale(volts.copy())                 # first object first (process-wide state would be primed by it)
+        t2 = np.asarray(other.scale(volts.copy()), dtype='f8')
+        back = r0 * (1 + a2 * t2 + b2 * t2 ** 2 + np.where(t2 < 0, c2 * (t2 - 100.0) * t2 ** 3, 0.0))
+        ctx.count('rtd_cross_object_points', len(t2))
+        okx = np.abs(back - res) <= 1e-6 * np.abs(res) + 1e-9
+        if not okx.all():
+            i = int(np.nonzero(~okx)[0][0])
+            ctx.violation('rtd/second-object-with-other-coefficients-inconsistent', {'params': [r0, a2, b2, c2], 'T': float(t2[i]), 'R_back': float(back[i]), 'R': float(res[i])})
+    except Exception as ex:
+        if case['k'] != 'rtd0':
+            ctx.violation('rtd/cross-object/raises/%s' % util.exc_key(ex), {'exc': util.exc_detail(ex)})
     desc = dict(kind='RTD', current=current, r0=r0, a=a, b=b, c=c, lead=lead, config=config, src=SG.RAW)
     for label, fn in (('direct', lambda: pure_call(ctx, sc, volts, 'rtd')), ('channel', lambda: through_channel(ctx, desc, volts))):
         try:
